@@ -285,12 +285,11 @@ func ruleP11(c *Ctx, rels ...string) {
 				return
 			}
 			var body []int
-			for _, comp := range fi.loops() {
-				for _, bi := range comp {
-					if bi == nextBlk.Index {
-						body = comp
-					}
+			if nl := fi.innermostLoop(nextBlk.Index); nl != nil {
+				for bi := range nl.blocks {
+					body = append(body, bi)
 				}
+				sort.Ints(body)
 			}
 			var effects []string
 			var appended []ssa.Value
